@@ -2,8 +2,8 @@ import FranzVerif.Model.C29
 /-! C32 — kfake behaves like a Kafka partition log.
 
 Hand-written model of kfake's partition log and transaction coordinator as the code performs them
-(one broker, one topic; segments are flattened into one batch list: the default `segment.bytes` is
-never reached by the histories of the correspondence run).
+(one topic, one or two brokers without followers; segments are flattened into one batch list: the default
+`segment.bytes` is never reached by the histories of the correspondence run).
 -- models: pkg/kfake/data.go:Cluster.pushBatch
 -- models: pkg/kfake/data.go:partData.recalculateLSO
 -- models: pkg/kfake/data.go:Cluster.trimLeft
@@ -14,12 +14,16 @@ never reached by the histories of the correspondence run).
 -- models: pkg/kfake/01_fetch.go:fetchSessions.getOrCreate
 -- models: pkg/kfake/01_fetch.go:fetchSession.updatePartition
 -- models: pkg/kfake/01_fetch.go:fetchSession.updateAndFilterResponse
+-- models: pkg/kfake/01_fetch.go:watchFetch.push
+-- models: pkg/kfake/01_fetch.go:watchFetch.addBytes
+-- models: pkg/kfake/cluster.go:Cluster.MoveTopicPartition
 -- models: pkg/kfake/21_delete_records.go:Cluster.handleDeleteRecords
 -- models: pkg/kfake/txns.go:pids.doInitProducerID
 -- models: pkg/kfake/txns.go:pids.doAddPartitions
 -- models: pkg/kfake/txns.go:pids.doEnd
 -- models: pkg/kfake/txns.go:pids.get
 -- models: pkg/kfake/txns.go:pids.updateTimer
+-- models: pkg/kfake/txns.go:pids.create
 -- models: pkg/kfake/txns.go:pidinfo.endTx
 The producer-state window is C29's `push` (proved there to refine the "last five accepted batches" spec).
 Core Lean only (linked into the driver). -/
@@ -179,6 +183,7 @@ structure Prod where
   txParts : List Nat := []
   lastWasCommit : Bool := false
   wins : List (Nat × Win) := []
+  txBytes : List (Nat × Int) := []      -- txPartBytes: bytes of this transaction's batches per partition
 deriving Repr
 
 structure SPart where
@@ -193,6 +198,7 @@ structure Session where
   id : Int
   epoch : Int
   parts : List SPart
+  broker : Nat := 0          -- sessions are kept per broker
 deriving Repr
 
 structure State where
@@ -201,9 +207,15 @@ structure State where
   prods : List (Int × Prod) := []
   sessions : List Session := []
   nextSid : Int := 1
+  leaders : List Nat := []    -- leader of every partition
+  nb : Nat := 1               -- brokers
+  via : Nat := 0              -- the broker the history's client is talking to (partition-level requests)
 deriving Repr
 
-def init (np : Nat) : State := { parts := List.replicate np {} }
+def init (np : Nat) (nb : Nat := 1) : State := { parts := List.replicate np {}, leaders := List.replicate np 0, nb := nb }
+
+/-- is the broker the client talks to the leader of partition `p`? -/
+def isLeader (s : State) (p : Nat) : Bool := s.leaders.getD p 0 == s.via
 
 def getProd (s : State) (k : Int) : Option Prod := s.prods.lookup k
 def setProd (s : State) (k : Int) (p : Prod) : State :=
@@ -227,7 +239,7 @@ def endTx (s : State) (k : Int) (pr : Prod) (commit : Bool) : State :=
     | some pd => ps.set p (endTxPart pd k pr.epoch commit)
     | none => ps) s.parts
   setProd { s with parts := parts } k
-    { pr with txParts := [], inTx := false, lastWasCommit := commit }
+    { pr with txParts := [], inTx := false, lastWasCommit := commit, txBytes := [] }
 
 /-- `bumpEpoch` below the exhaustion threshold (32766; the histories stay far below, see the assumptions). -/
 def bump (pr : Prod) : Prod := { pr with epoch := pr.epoch + 1 }
@@ -239,7 +251,12 @@ def expireOne (s : State) : Option State :=
   | [] => none
   | c :: cs =>
     let m := cs.foldl (fun (a : Int × Prod) e => if e.2.txStart + e.2.timeout < a.2.txStart + a.2.timeout then e else a) c
-    some (endTx s m.1 (bump m.2) false)
+    if m.2.epoch ≥ 32766 then
+      -- epoch exhaustion: `bumpEpoch` allocates a new producer (fresh random id, unknown to the history's
+      -- clients) and forgets the old id; the timed out transaction is ended on the old producer state
+      let s1 := endTx s m.1 m.2 false
+      some { s1 with prods := s1.prods.filter (fun e => e.1 != m.1) }
+    else some (endTx s m.1 (bump m.2) false)
 
 def expire : Nat → State → State
   | 0, s => s
@@ -253,7 +270,11 @@ def expireAll (s : State) : State := expire (s.prods.length + 1) s
 def initx (s : State) (k timeout : Int) : State × Int × Int :=
   if timeout ≤ 0 || timeout > 900000 then (s, 50, -1)
   else match getProd s k with
-    | some pr => let pr' := bump pr; (setProd s k pr', 0, pr'.epoch)
+    | some pr =>
+      -- `pids.create` for a known transactional id: abort what the previous incarnation left open, then bump
+      let s1 := if pr.inTx then endTx s k pr false else s
+      let pr' := bump ((getProd s1 k).getD pr)
+      (setProd s1 k pr', 0, pr'.epoch)
     | none => (setProd s k { txnl := true, timeout := timeout }, 0, 0)
 
 /-- `doInitProducerID` KIP-360 path (request carries producer id and epoch). -/
@@ -303,6 +324,11 @@ def endTxn (s : State) (v5 : Bool) (k epoch : Int) (commit : Bool) : State × In
         (setProd s1 k pr1, 0, pr1.epoch)
       else (s1, 0, -1)
 
+/-- `txPartBytes` bookkeeping of the produce handler. -/
+def addTxBytes (pr : Prod) (p : Nat) (nb : Int) : Prod :=
+  if (pr.txBytes.lookup p).isSome then { pr with txBytes := pr.txBytes.map (fun e => if e.1 == p then (p, e.2 + nb) else e) }
+  else { pr with txBytes := pr.txBytes ++ [(p, nb)] }
+
 /-- `pids.get` (with the implicit partition addition of produce v12+): the producer state whose window is used, if any. -/
 def pidsGet (s : State) (v12 : Bool) (k : Int) (p : Nat) (tx : Bool) : State × Option Prod :=
   match getProd s k with
@@ -329,7 +355,8 @@ def produce (s : State) (v12 : Bool) (k epoch seq n nbytes : Int) (p : Nat) (tx 
   match s.parts[p]? with
   | none => (s, 3, 0, -1)
   | some pd =>
-    if tx && k < 0 then (s, 49, 0, -1)
+    if !isLeader s p then (s, 6, 0, -1)
+    else if tx && k < 0 then (s, 49, 0, -1)
     else if k < 0 then (setPart s p (pushBatch pd ⟨0, n, k, epoch, seq, tx, false, false, nbytes⟩ tx), 0, pd.hwm, pd.logStart)
     else
       let r1 := pidsGet s v12 k p tx
@@ -346,7 +373,9 @@ def produce (s : State) (v12 : Bool) (k epoch seq n nbytes : Int) (p : Nat) (tx 
           match wr.2 with
           | .reject => (s3, 45, 0, -1)
           | .dup off => (s3, 0, off, -1)
-          | .accept => (setPart s3 p (pushBatch pd ⟨0, n, k, epoch, seq, tx, false, false, nbytes⟩ tx), 0, pd.hwm, pd.logStart)
+          | .accept =>
+            let s4 := if tx then setProd r2.1 k (addTxBytes (setWin pr1 p wr.1) p nbytes) else s3
+            (setPart s4 p (pushBatch pd ⟨0, n, k, epoch, seq, tx, false, false, nbytes⟩ tx), 0, pd.hwm, pd.logStart)
 
 /-! ### Fetch -/
 
@@ -367,20 +396,21 @@ structure PResp where
 deriving Repr, DecidableEq
 
 /-- the response loop of `handleFetch` over `toFetch`. `unk` = error code for an unknown partition. -/
-def fetchLoop (parts : List Part) (rc : Bool) (maxBytes unk : Int) : List FReq → (nbytes : Int) → (added : Nat) → List PResp
+def fetchLoop (parts : List Part) (rc : Bool) (maxBytes unk : Int) (lead : Nat → Bool) : List FReq → (nbytes : Int) → (added : Nat) → List PResp
   | [], _, _ => []
   | fp :: rest, nb, ad =>
     match parts[fp.p]? with
-    | none => ⟨fp.p, unk, 0, -1, -1, [], []⟩ :: fetchLoop parts rc maxBytes unk rest nb ad
+    | none => ⟨fp.p, unk, 0, -1, -1, [], []⟩ :: fetchLoop parts rc maxBytes unk lead rest nb ad
     | some pd =>
+      if !lead fp.p then ⟨fp.p, 6, 0, -1, -1, [], []⟩ :: fetchLoop parts rc maxBytes unk lead rest nb ad else
       match searchOffset pd fp.off with
-      | .atEnd => ⟨fp.p, 0, pd.hwm, pd.lso, pd.logStart, [], []⟩ :: fetchLoop parts rc maxBytes unk rest nb ad
-      | .outOfRange => ⟨fp.p, 1, pd.hwm, pd.lso, pd.logStart, [], []⟩ :: fetchLoop parts rc maxBytes unk rest nb ad
+      | .atEnd => ⟨fp.p, 0, pd.hwm, pd.lso, pd.logStart, [], []⟩ :: fetchLoop parts rc maxBytes unk lead rest nb ad
+      | .outOfRange => ⟨fp.p, 1, pd.hwm, pd.lso, pd.logStart, [], []⟩ :: fetchLoop parts rc maxBytes unk lead rest nb ad
       | .found bs =>
         let w := walk rc pd.lso maxBytes fp.pmax bs 0 nb ad
         let ab := if rc then abortedFor pd.aborted fp.off w.1 else []
         let r : PResp := ⟨fp.p, 0, pd.hwm, pd.lso, pd.logStart, w.1, ab⟩
-        if w.2.2.2 then [r] else r :: fetchLoop parts rc maxBytes unk rest w.2.1 w.2.2.1
+        if w.2.2.2 then [r] else r :: fetchLoop parts rc maxBytes unk lead rest w.2.1 w.2.2.1
 
 /-- `updatePartition` -/
 def sessUpdate (ps : List SPart) (r : FReq) : List SPart :=
@@ -407,6 +437,8 @@ structure FetchOp where
   sepoch : Int
   req : List FReq
   forget : List Nat
+  minBytes : Int := 0
+  maxWait : Int := 0
 deriving Repr
 
 /-- The session partitions that are not named in the request are walked in Go map order: `ord` is that
@@ -417,21 +449,22 @@ def implicitOrder (ord : List Nat) (impl : List SPart) : List SPart :=
   let chosen := chosen.foldl (fun acc e => if acc.any (fun x => x.p == e.p) then acc else acc ++ [e]) []
   chosen ++ impl.filter (fun e => !chosen.any (fun x => x.p == e.p))
 
-/-- `handleFetch` with `MinBytes = 0`: (state, top-level error, session id, partitions of the response). -/
+/-- `handleFetch` once it answers (no waiting, or woken): (state, top-level error, session id, partitions of the response). -/
 def fetch (s : State) (f : FetchOp) (ord : List Nat) : State × Int × Int × List PResp :=
   let unk : Int := if f.v13 then 100 else 3
-  let without (id : Int) := s.sessions.filter (fun x => x.id != id)
+  let without (id : Int) := s.sessions.filter (fun x => !(x.id == id && x.broker == s.via))
+  let lead := isLeader s
   if f.sepoch == -1 then
     let s1 := if f.sid > 0 then { s with sessions := without f.sid } else s
-    (s1, 0, 0, fetchLoop s.parts f.rc f.maxBytes unk f.req 0 0)
+    (s1, 0, 0, fetchLoop s.parts f.rc f.maxBytes unk lead f.req 0 0)
   else if f.sepoch == 0 then
     let sess0 := if f.sid > 0 then without f.sid else s.sessions
     let ps := (f.req.foldl sessUpdate ([] : List SPart))
-    let resp := fetchLoop s.parts f.rc f.maxBytes unk f.req 0 0
-    let se : Session := ⟨s.nextSid, 1, sessRecord ps resp⟩
+    let resp := fetchLoop s.parts f.rc f.maxBytes unk lead f.req 0 0
+    let se : Session := ⟨s.nextSid, 1, sessRecord ps resp, s.via⟩
     ({ s with sessions := sess0 ++ [se], nextSid := s.nextSid + 1 }, 0, se.id, resp)
   else
-    match s.sessions.find? (fun x => x.id == f.sid) with
+    match s.sessions.find? (fun x => x.id == f.sid && x.broker == s.via) with
     | none => (s, 70, 0, [])
     | some se =>
       if f.sepoch != se.epoch then (s, 71, 0, [])
@@ -440,10 +473,99 @@ def fetch (s : State) (f : FetchOp) (ord : List Nat) : State × Int × Int × Li
         let ps := f.req.foldl sessUpdate ps0
         let impl := ps.filter (fun e => !f.req.any (fun r => r.p == e.p))
         let toFetch := f.req ++ (implicitOrder ord impl).map (fun e => ⟨e.p, e.off, e.pmax⟩)
-        let resp := fetchLoop s.parts f.rc f.maxBytes unk toFetch 0 0
+        let resp := fetchLoop s.parts f.rc f.maxBytes unk lead toFetch 0 0
         let kept := resp.filter (sessInclude true ps)
-        let se' : Session := ⟨se.id, se.epoch + 1, sessRecord ps resp⟩
-        ({ s with sessions := s.sessions.map (fun x => if x.id == se.id then se' else x) }, 0, se.id, kept)
+        let se' : Session := ⟨se.id, se.epoch + 1, sessRecord ps resp, se.broker⟩
+        ({ s with sessions := s.sessions.map (fun x => if x.id == se.id && x.broker == se.broker then se' else x) }, 0, se.id, kept)
+
+/-! ### Waiting fetches (`MinBytes > 0`) -/
+
+/-- the byte count of the first pass of `handleFetch` over one partition: (bytes, returnEarly). -/
+def firstPassWalk (rc : Bool) (lso pmax : Int) : List Batch → Int → Int × Bool
+  | [], acc => (acc, false)
+  | m :: r, acc =>
+    if rc && m.first ≥ lso then (acc, false)
+    else if acc + m.nbytes ≥ pmax then (acc + m.nbytes, true)
+    else firstPassWalk rc lso pmax r (acc + m.nbytes)
+
+/-- the first pass: (returnEarly, bytes available, per-partition remaining bytes `needp`, watched partitions). -/
+def firstPass (parts : List Part) (rc : Bool) (reqs : List FReq) (lead : Nat → Bool) : Bool × Int × List (Nat × Int) × List Nat :=
+  reqs.foldl (fun (acc : Bool × Int × List (Nat × Int) × List Nat) fp =>
+    match parts[fp.p]? with
+    | none => acc
+    | some pd =>
+      if !lead fp.p then (true, acc.2) else
+      let acc : Bool × Int × List (Nat × Int) × List Nat := (acc.1, acc.2.1, acc.2.2.1, acc.2.2.2 ++ [fp.p])
+      match searchOffset pd fp.off with
+      | .atEnd => acc
+      | .outOfRange => (true, acc.2)
+      | .found bs =>
+        let w := firstPassWalk rc pd.lso fp.pmax bs 0
+        (acc.1 || w.2, acc.2.1 + w.1, acc.2.2.1 ++ [(fp.p, fp.pmax - w.1)], acc.2.2.2)) (false, 0, [], [])
+
+/-- `watchFetch`: bytes still needed in total and per partition, and the partitions it is registered on. -/
+structure Watch where
+  need : Int
+  needp : List (Nat × Int)
+  watched : List Nat
+deriving Repr
+
+/-- what the end of producer `pr`'s transaction adds to a waiting fetch on partition `p`: the marker
+(`pushBatch` → `w.push`) and, for read_committed, the transaction's bytes there (`endTx` → `w.addBytes`). -/
+def wakeBytes (rc : Bool) (pr : Prod) (p : Nat) : Int :=
+  ctlBytes + (if rc then (match pr.txBytes.lookup p with | some b => if b > 0 then b else 0 | none => 0) else 0)
+
+/-- While a fetch waits only transaction timeouts happen: the next one before the deadline, whether it wakes the fetch. -/
+def waitStep (s : State) (rc : Bool) (w : Watch) (deadline : Int) : Option (State × Watch × Bool) :=
+  let cands := s.prods.filter (fun e => e.2.inTx && e.2.txStart + e.2.timeout ≤ deadline)
+  match cands with
+  | [] => none
+  | c :: cs =>
+    let m := cs.foldl (fun (a : Int × Prod) e => if e.2.txStart + e.2.timeout < a.2.txStart + a.2.timeout then e else a) c
+    let touched := m.2.txParts.filter (fun p => decide (p < s.parts.length) && w.watched.contains p)
+    let need' := touched.foldl (fun a p => a - wakeBytes rc m.2 p) w.need
+    let needp' := w.needp.map (fun e => if touched.contains e.1 then (e.1, e.2 - wakeBytes rc m.2 e.1) else e)
+    let fired := decide (need' ≤ 0) || needp'.any (fun e => touched.contains e.1 && decide (e.2 ≤ 0))
+    let s1 := { s with now := m.2.txStart + m.2.timeout }
+    match expireOne s1 with
+    | none => none
+    | some s2 => some (s2, ⟨need', needp', w.watched⟩, fired)
+
+def waitLoop : Nat → State → Bool → Watch → Int → State
+  | 0, s, _, _, deadline => { s with now := deadline }
+  | f + 1, s, rc, w, deadline =>
+    match waitStep s rc w deadline with
+    | none => { s with now := deadline }
+    | some (s2, w2, fired) => if fired then s2 else waitLoop f s2 rc w2 deadline
+
+/-- `handleFetch` including the wait: (state, elapsed ms, top-level error, session id, partitions). When it waits, the
+handler has already run its session part once (a new session is created, and a second one when it is woken). -/
+def fetchW (s : State) (f : FetchOp) (ord : List Nat) : State × Int × Int × Int × List PResp :=
+  let toFetch : Option (List FReq) :=
+    if f.sepoch == -1 || f.sepoch == 0 then some f.req
+    else match s.sessions.find? (fun x => x.id == f.sid && x.broker == s.via) with
+      | none => none
+      | some se =>
+        if f.sepoch != se.epoch then none
+        else
+          let ps := f.req.foldl sessUpdate (se.parts.filter (fun e => !f.forget.contains e.p))
+          some (f.req ++ (ps.filter (fun e => !f.req.any (fun r => r.p == e.p))).map (fun e => ⟨e.p, e.off, e.pmax⟩))
+  match toFetch with
+  | none => let r := fetch s f ord; (r.1, 0, r.2)
+  | some tf =>
+    let fp := firstPass s.parts f.rc tf (isLeader s)
+    if fp.1 || fp.2.1 ≥ f.minBytes || f.maxWait ≤ 0 then let r := fetch s f ord; (r.1, 0, r.2)
+    else
+      let without (id : Int) := s.sessions.filter (fun x => !(x.id == id && x.broker == s.via))
+      let s1 : State :=
+        if f.sepoch == 0 then
+          { s with sessions := (if f.sid > 0 then without f.sid else s.sessions) ++ [⟨s.nextSid, 1, f.req.foldl sessUpdate [], s.via⟩],
+                   nextSid := s.nextSid + 1 }
+        else if f.sepoch == -1 && f.sid > 0 then { s with sessions := without f.sid }
+        else s
+      let s2 := waitLoop (s1.prods.length + 1) s1 f.rc ⟨f.minBytes - fp.2.1, fp.2.2.1, fp.2.2.2⟩ (s.now + f.maxWait)
+      let r := fetch s2 f ord
+      (r.1, s2.now - s.now, r.2)
 
 /-! ### Operations of a history -/
 
@@ -456,6 +578,8 @@ inductive Op where
   | del (p : Nat) (off : Int)
   | sleep (ms : Int)
   | fetch (f : FetchOp) (ord : List Nat)
+  | move (p b : Nat)      -- `MoveTopicPartition`
+  | via (b : Nat)         -- the client turns to broker `b`
 deriving Repr
 
 /-- what an operation answers (compared field by field with the implementation). -/
@@ -464,7 +588,7 @@ inductive Out where
   | addp (r : List (Nat × Int))
   | prod (code base ls : Int)
   | ok
-  | fetch (err sid : Int) (ps : List PResp)
+  | fetch (elapsed err sid : Int) (ps : List PResp)
 deriving Repr
 
 /-- one request, then the `updateTimer` call that follows every request. -/
@@ -477,9 +601,13 @@ def step (s : State) : Op → State × Out
   | .del p off =>
     match s.parts[p]? with
     | none => (s, .codeVal 3 0)
-    | some pd => let r := deleteRecords pd off; (expireAll (setPart s p r.1), .codeVal r.2.1 r.2.2)
+    | some pd =>
+      if !isLeader s p then (expireAll s, .codeVal 6 0) else
+      let r := deleteRecords pd off; (expireAll (setPart s p r.1), .codeVal r.2.1 r.2.2)
+  | .move p b => (if p < s.parts.length && b < s.nb then { s with leaders := s.leaders.set p b } else s, .ok)
+  | .via b => (if b < s.nb then { s with via := b } else s, .ok)
   | .sleep ms => (expireAll { s with now := s.now + ms }, .ok)
-  | .fetch f ord => let r := fetch s f ord; (expireAll r.1, .fetch r.2.1 r.2.2.1 r.2.2.2)
+  | .fetch f ord => let r := fetchW s f ord; (expireAll r.1, .fetch r.2.1 r.2.2.1 r.2.2.2.1 r.2.2.2.2)
 
 def run (s : State) : List Op → State
   | [] => s
